@@ -18,11 +18,12 @@ from .choices import Choices
 from .loop import SimLoop
 from .net import ServerCrashed, ServerNode
 from .ref import jsonrpc as R
-from .service import BODIES, EXC_CLASS_NAMES, MARKER, NODATA, SIGNATURES, ProtoFailure, Service
+from .service import BODIES, EXC_CLASS_NAMES, MARKER, NODATA, SIGNATURES, VALIDATED, ProtoFailure, Service
 from .stack import ensure_loop
 from .world import World
 
-METHOD_MODELS = {name: R.MethodModel(SIGNATURES[name], BODIES[name]) for name in BODIES}
+METHOD_MODELS = {name: R.MethodModel(SIGNATURES[name], BODIES[name], VALIDATED[name][1] if name in VALIDATED else None)
+                 for name in BODIES}
 
 ELEMENT_IDS: List[Any] = [1, 0, -1, 2, 3, 'abc', '', '1', 2 ** 62, 'id-é', 7, '0', -7, 'x']
 
@@ -30,7 +31,7 @@ ELEMENT_IDS: List[Any] = [1, 0, -1, 2, 3, 'abc', '', '1', 2 ** 62, 'id-é', 7, '
 # --- documents -----------------------------------------------------------------------------------------------------
 def gen_element(ch: Choices, tok: str, id_: Any, notification: bool) -> Tuple[Dict[str, Any], str]:
     """One request element (a JSON object) and its kind."""
-    kind = ['ok', 'unknown', 'nobind', 'proto', 'exc', 'invalid'][ch.weighted([6, 2, 3, 3, 3, 2], 'el.kind')]
+    kind = ['ok', 'unknown', 'nobind', 'proto', 'exc', 'invalid', 'novalidate'][ch.weighted([6, 2, 3, 3, 3, 2, 2], 'el.kind')]
     if kind in ('ok', 'proto', 'exc'):
         c = None
         for _ in range(8):
@@ -55,6 +56,13 @@ def gen_element(ch: Choices, tok: str, id_: Any, notification: bool) -> Tuple[Di
         ], 'el.nobind')
         if not el['params'] and ch.draw(2, 'el.noparams'):
             del el['params']
+    elif kind == 'novalidate':
+        # binds to the signature but does not satisfy the schema attached to the method
+        el = {'jsonrpc': '2.0', 'method': 'typed'}
+        el['params'] = ch.choice([
+            [tok, 'x'], [tok, 1.5], [tok, None], [tok, True], [tok, 1, 'zzz'], {'tok': tok, 'n': '1'},
+            {'tok': tok, 'n': 1, 'label': 'c'}, [tok, [1]], {'tok': tok, 'n': {}}, [tok, 2, 7],
+        ], 'el.novalidate')
     else:
         el = {'jsonrpc': '2.0', 'method': 'echo', 'params': [tok, 'never']}
         member = ch.choice(['jsonrpc', 'method', 'params', 'id'], 'el.invalid.member')
@@ -183,7 +191,9 @@ SHORT_TRIGGER = 'none'       # a 'short' middleware answers requests for this me
 REWRITE_TRIGGER = 'pair'     # a 'rewrite_req' middleware turns this method into echo(tok, 'rewritten-<idx>')
 
 
-def make_middleware(w: World, node: str, idx: int, kind: str, is_async: bool) -> Callable[..., Any]:
+def make_middleware(w: World, node: str, idx: int, kind: str, is_async: bool, plain: bool = False) -> Callable[..., Any]:
+    """``plain``: in an asynchronous chain, an ordinary function that does its prologue when called and returns
+    the awaitable of the rest (a legal AsyncMiddlewareType; it is not lazy like an ``async def``)."""
     def post(request: Any, resp: Any) -> None:
         w.rec(node, 'mw.exit', mw=idx, tok=_tok_of(request), rid=request.id,
               resp='unset' if isinstance(resp, UnsetType) else ('error' if resp.is_error else 'result'))
@@ -203,8 +213,9 @@ def make_middleware(w: World, node: str, idx: int, kind: str, is_async: bool) ->
             return resp
         return mw
 
-    async def amw(request: Any, context: Any, handler: Any) -> Any:
-        _mw_pre(w, node, idx, kind, request, context)
+    async def amw(request: Any, context: Any, handler: Any, _pre_done: bool = False) -> Any:
+        if not _pre_done:
+            _mw_pre(w, node, idx, kind, request, context)
         tok = _tok_of(request)
         for d in w.plan.get(('mw', idx, tok), ()):
             await asyncio.sleep(d)
@@ -222,6 +233,12 @@ def make_middleware(w: World, node: str, idx: int, kind: str, is_async: bool) ->
             resp = _wrap_resp(idx, resp)
         post(request, resp)
         return resp
+
+    if plain:
+        def pmw(request: Any, context: Any, handler: Any) -> Any:
+            _mw_pre(w, node, idx, kind, request, context)
+            return amw(request, context, handler, True)
+        return pmw
     return amw
 
 
@@ -267,10 +284,11 @@ def draw_config(ch: Choices, doc_len: int = 1, middlewares: bool = False, handle
         'async': is_async,
         'flavour': (ch.choice(['async', 'mixed', 'sync'], 'srv.flavour') if is_async else 'sync'),
         'max_batch_size': ch.choice([None, None, 0, 1, doc_len, max(1, doc_len - 1), doc_len + 1], 'srv.max_batch'),
-        'middlewares': [], 'handlers': {},
+        'middlewares': [], 'handlers': {}, 'mw_plain': [],
     }
     if middlewares:
         cfg['middlewares'] = [ch.choice(MW_KINDS, 'srv.mw.kind') for _ in range(ch.draw(4, 'srv.mw.n'))]
+        cfg['mw_plain'] = [ch.flag(1, 3, 'srv.mw.plain') for _ in cfg['middlewares']]
     if handlers:
         shape = ch.choice(['none', 'generic', 'per_code', 'both', 'several', 'replace'], 'srv.eh.shape')
         table: Dict[str, List[Tuple[str, str]]] = {}
@@ -311,7 +329,8 @@ class ServerUnderTest:
         is_async = cfg['async']
         self.loop: Optional[SimLoop] = ensure_loop(w) if is_async else None
         self.service = Service(w, cfg['flavour'], node=node)
-        mws = [make_middleware(w, node, i, k, is_async) for i, k in enumerate(cfg['middlewares'])]
+        plain = list(cfg.get('mw_plain') or []) + [False] * len(cfg['middlewares'])
+        mws = [make_middleware(w, node, i, k, is_async, plain[i]) for i, k in enumerate(cfg['middlewares'])]
         table: Dict[Any, List[Any]] = {}
         for key, hs in cfg['handlers'].items():
             table[None if key == 'none' else int(key)] = [make_error_handler(w, node, hid, kind, is_async)
